@@ -507,6 +507,13 @@ class Interp:
             r = self.summaries[qn](self, func, self_val, args, kwargs, node, caller)
             if r is not NotImplemented:
                 return r
+        memo_key = None
+        if any(d.split("(")[0].split(".")[-1] in ("lru_cache", "cache", "cached_property", "memoize") for d in func.decorators):
+            # a memoising decorator: one result object per argument tuple for the whole process (run)
+            memo_key = ("$memo", qn, tuple(self.expr_of(a) for a in args), tuple(sorted((k, self.expr_of(v)) for k, v in kwargs.items())))
+            if memo_key in self.run.const_cache:
+                self.run.event("memo_hit", func=qn)
+                return self.run.const_cache[memo_key]
         isgen = self._gen_cache.get(id(func.node))
         if isgen is None:
             isgen = any(isinstance(n, (ast.Yield, ast.YieldFrom)) for n in ast.walk(func.node))
@@ -553,14 +560,18 @@ class Interp:
             # a generator is evaluated eagerly: the list of the values it yields, in order
             fr.locals["$yields"] = ListV([])
         self.run.depth += 1
-        if self.run.depth > 80:
+        if self.run.depth > 250:
             raise self.unsupported(f"call depth exceeded in {qn}", node, caller)
         self.run.event("enter", func=qn, node=node, frame=fr)
         try:
-            self.exec_block(func.node.body, fr)
-            return fr.locals["$yields"] if gen_mode else NONE
-        except ReturnEx as r:
-            return fr.locals["$yields"] if gen_mode else r.value
+            try:
+                self.exec_block(func.node.body, fr)
+                result: Value = fr.locals["$yields"] if gen_mode else NONE
+            except ReturnEx as r:
+                result = fr.locals["$yields"] if gen_mode else r.value
+            if memo_key is not None:
+                self.run.const_cache[memo_key] = result
+            return result
         finally:
             self.run.depth -= 1
 
